@@ -832,6 +832,8 @@ func psCorpus(tier string) []psSpec {
 		mk("ixscan-dotted", `{"<<G:g1>>":{"<<G:g2>>":"<<S:s1>>"}}`, "IXSCAN { %0.%1: 1 }", true),
 		mk("ixscan-with-id", `{"<<G:g1>>":"<<S:s1>>"}`, "IXSCAN { %0: 1, %{_id}: 1 }", false),
 		mk("express", `{"<<G:g1>>":"<<S:s1>>"}`, "EXPRESS_IXSCAN { %0: 1 }", false),
+		mk("countscan", `{"<<G:g1>>":"<<S:s1>>"}`, "COUNT_SCAN { %0: 1 }", true),
+		mk("distinctscan", `{"<<G:g1>>":"<<S:s1>>","<<G:g2>>":"<<S:s2>>"}`, "DISTINCT_SCAN { %0: 1, %1: 1 }", false),
 		mk("collscan", `{"<<G:g1>>":"<<S:s1>>"}`, "COLLSCAN", true),
 		mk("idhack", `{"<<G:g1>>":"<<S:s1>>"}`, "IDHACK", false),
 		mk("ixscan-3", `{"<<G:g1>>":"<<S:s1>>","<<G:g2>>":"<<S:s2>>","<<G:g3>>":"<<S:s3>>"}`, "IXSCAN { %0: 1, %1: 1, %2: 1 }", false),
